@@ -1448,6 +1448,9 @@ func TestVerifC16(t *testing.T) {
 
 	c16SingleFlightStorm(r, vSeed())
 
+	// ---- (e2) cache coherence across writers: two nodes on one bucket, DocChanged-driven invalidation ----
+	c16Coherence(r, rnd)
+
 	// ---- (f) system level: real databases, tiny caches, bypass comparison, user-xattr channel change ----
 	c16System(r)
 }
